@@ -711,6 +711,11 @@ func Run(ctx context.Context, node Node, shared *SharedStore) (Action, error) {
 		maxRetries = retryable.GetMaxRetries()
 		wait = retryable.GetWait()
 	}
+	if maxRetries < 1 {
+		// A budget below 1 still means one attempt: Post must not run
+		// without Exec having produced a result.
+		maxRetries = 1
+	}
 
 	// Exec phase with retries
 	var execResult any
